@@ -7,7 +7,7 @@
 // definition can be written down: move-construct + destroy / placement new) the same set-up is run through it and
 // the observations are compared (field `std=`).
 //
-// usage: memalgo_harness <maxN>         (C++11 only: no generic lambdas, no if constexpr, no variable templates)
+// usage: memalgo_harness <maxN> [<case key>|-] [trace]        (C++11 only: no generic lambdas, no if constexpr, no variable templates)
 //
 // line:  C15 <alg> T=<cat> it=<it> n=<n> k=<k> | exc=<0|1> adv=<-|a|a,b> dst=<slots> src=<slots> live=<delta> faults=<-|..> ;; std=<same|na|DIFF[..]> ev=<..>
 // slots: n+1 comma separated tokens (slot n is a guard that must stay as it was): value of a live object, H for an
@@ -593,8 +593,14 @@ struct Obs {
   std::string ev;
 };
 
-template <class A, class T>
-Obs runOne(int n, int k) {
+template <class T>
+struct Fn {
+  typedef std::string (*type)(T *, T *, int);
+};
+
+// (not a template over the algorithm: one instantiation per value category keeps the compile time down)
+template <class T>
+Obs runOne(typename Fn<T>::type call, int n, int k) {
   Globals &g = G();
   g.live.clear();
   g.faults.clear();
@@ -615,7 +621,7 @@ Obs runOne(int n, int k) {
   bool exc = false;
   g.fuel = k;
   try {
-    adv = A::call(src, dst, n);
+    adv = call(src, dst, n);
   } catch (const ElemThrow &) {
     exc = true;
   }
@@ -648,27 +654,53 @@ Obs runOne(int n, int k) {
   return o;
 }
 
+struct Options {
+  std::string only;  // run only the case with this key ("<alg> T=<cat> it=<it> n=<n> k=<k>")
+  bool trace;        // print "C15-BEGIN <key>" before each case (to name the case a sanitizer aborts in)
+  Options() : trace(false) {}
+};
+inline Options &Opt() {
+  static Options o;
+  return o;
+}
+
+template <class T>
+void runCases(const char *alg, const char *kname, typename Fn<T>::type amcFn, typename Fn<T>::type stdFn, int maxN,
+              bool single) {
+  for (int n = single ? 1 : 0; n <= (single ? 1 : maxN); ++n) {
+    for (int k = 0; k <= n; ++k) {
+      std::string key = std::string(alg) + " T=" + VT<T>::name() + " it=" + kname + " n=" + std::to_string(n) +
+                        " k=" + std::to_string(k);
+      if (!Opt().only.empty() && Opt().only != key) continue;
+      if (Opt().trace) {
+        std::printf("C15-BEGIN %s\n", key.c_str());
+        std::fflush(stdout);
+      }
+      Obs a = runOne<T>(amcFn, n, k);
+      std::string s = "na";
+      if (stdFn != nullptr) {
+        Obs r = runOne<T>(stdFn, n, k);
+        s = r.text == a.text ? std::string("same") : "DIFF[" + r.text + "]";
+      }
+      std::printf("C15 %s | %s ;; std=%s ev=%s\n", key.c_str(), a.text.c_str(), s.c_str(), a.ev.c_str());
+      std::fflush(stdout);
+    }
+  }
+}
+
 template <template <class, class, class> class A, class K, class T>
-std::string refCompare(int n, int k, const Obs &a, std::true_type) {
-  Obs s = runOne<A<Std, K, T>, T>(n, k);
-  if (s.text == a.text) return "same";
-  return "DIFF[" + s.text + "]";
+typename Fn<T>::type stdFnOf(std::true_type) {
+  return &A<Std, K, T>::call;
 }
 template <template <class, class, class> class A, class K, class T>
-std::string refCompare(int, int, const Obs &, std::false_type) {
-  return "na";
+typename Fn<T>::type stdFnOf(std::false_type) {
+  return nullptr;
 }
 
 template <template <class, class, class> class A, class K, class T>
 void runAlg(int maxN, bool single) {
-  for (int n = single ? 1 : 0; n <= (single ? 1 : maxN); ++n) {
-    for (int k = 0; k <= n; ++k) {
-      Obs a = runOne<A<Amc, K, T>, T>(n, k);
-      std::string s = refCompare<A, K, T>(n, k, a, std::integral_constant<bool, (A<Std, K, T>::available != 0)>());
-      std::printf("C15 %s T=%s it=%s n=%d k=%d | %s ;; std=%s ev=%s\n", A<Amc, K, T>::name(), VT<T>::name(), K::name(), n, k,
-                  a.text.c_str(), s.c_str(), a.ev.c_str());
-    }
-  }
+  runCases<T>(A<Amc, K, T>::name(), K::name(), &A<Amc, K, T>::call,
+              stdFnOf<A, K, T>(std::integral_constant<bool, (A<Std, K, T>::available != 0)>()), maxN, single);
 }
 
 template <class K, class T>
@@ -711,6 +743,8 @@ void runType(int maxN) {
 
 int main(int argc, char **argv) {
   int maxN = argc > 1 ? std::atoi(argv[1]) : 6;
+  if (argc > 2 && std::string(argv[2]) != "-") Opt().only = argv[2];
+  if (argc > 3 && std::string(argv[3]) == "trace") Opt().trace = true;
   std::printf("C15-HEADER std=%ld maxN=%d\n", static_cast<long>(__cplusplus), maxN);
 #if !defined(VCAT) || VCAT == 0
   runType<int>(maxN);
